@@ -160,9 +160,11 @@ static void pred_c01(const Case &c) {
     // the rounding of the preprocessing (N = E_lib - E_exact) makes E_lib of full rank: what T P' leaves out of column j is bounded by
     // |N|_2 <= |N|_F over ALL columns (a column with a large offset perturbs the subspace the others are projected on)
     ld dEF = 0; for (int j = 0; j < p; j++) dEF += n * dE[j] * dE[j]; dEF = sqrtl(dEF);
+    // singular values the rank decision (1e-9 relative) neglects are not rounding: they are data the npc = rank components leave out
+    ld tail = 0; for (size_t k = (size_t)npc; k < sv.size(); k++) tail += sv[k] * sv[k]; tail = sqrtl(tail);
     for (int i = 0; i < n; i++) for (int j = 0; j < p; j++) {
       ld sc = scaling >= 0 ? fabsl(Pr.scale[j]) : 1, mu = scaling >= 0 ? fabsl(Pr.mean[j]) : 0;
-      ld tol = sc * (64 * (n + p) * EPS * cond * nE + dE[j] + 2 * dEF + 64 * (npc + 2) * EPS * absacc(i, j)) + 64 * EPS * (fabsl(X(i, j)) + mu) + (scaling >= 0 ? 64 * (n + 1) * EPS * (mu + fabsl(X(i, j))) : 0) + 1e-300L;
+      ld tol = sc * (64 * (n + p) * EPS * cond * nE + dE[j] + 2 * dEF + 2 * tail + 64 * (npc + 2) * EPS * absacc(i, j)) + 64 * EPS * (fabsl(X(i, j)) + mu) + (scaling >= 0 ? 64 * (n + 1) * EPS * (mu + fabsl(X(i, j))) : 0) + 1e-300L;
       if (!(fabsl(xr->data[i][j] - X(i, j)) <= tol)) fail(fmt("PCAIndVarPredictor with all %d components does not reproduce X at (%d,%d): %.17g vs %.17Lg tol %.3Lg (scaling=%d)", npc, i, j, xr->data[i][j], X(i, j), tol, scaling));
     }
     DelMatrix(&xr);
